@@ -828,6 +828,7 @@ func (g *FnGen) finish() {
 	if g.C != nil && len(g.C.ReturnAsserts) > 0 {
 		g.checkReturnAsserts()
 	}
+	g.checkInterfaceConformance()
 	if g.C == nil || len(g.C.Ensures) == 0 || len(g.rets) == 0 {
 		return
 	}
@@ -1212,4 +1213,74 @@ func (g *FnGen) typeInvMapKeys(tn string, t types.Type) []string {
 		}
 	}
 	return out
+}
+
+// Behavioural subtyping: callers of an interface method know only the interface's contract
+// ("extern (pkg.I).M"). Every /repo method that implements such an interface method must
+// therefore establish the interface's postconditions itself: one obligation per (interface
+// ensures clause, return site), kind "subtype". The interface's parameter names are bound
+// positionally to the implementation's parameters, "recv" to its receiver.
+func (g *FnGen) checkInterfaceConformance() {
+	if g.parent != nil || g.fn == nil || g.fn.Signature.Recv() == nil || len(g.rets) == 0 || len(g.fn.Params) == 0 {
+		return
+	}
+	recvT := g.fn.Signature.Recv().Type()
+	var keys []string
+	for k := range g.S.Contracts {
+		if strings.HasPrefix(k, "(") && !strings.HasPrefix(k, "(*") && strings.HasSuffix(k, ")."+g.fn.Name()) {
+			keys = append(keys, k)
+		}
+	}
+	sort.Strings(keys)
+	for _, k := range keys {
+		ict := g.S.Contracts[k]
+		if len(ict.Ensures) == 0 {
+			continue
+		}
+		in := k[1:strings.LastIndex(k, ").")]
+		it := lookupNamedType(g.P, in)
+		if it == nil {
+			continue
+		}
+		iface, ok := it.Underlying().(*types.Interface)
+		if !ok || !types.Implements(recvT, iface) {
+			continue
+		}
+		var isig *types.Signature
+		for i := 0; i < iface.NumMethods(); i++ {
+			if iface.Method(i).Name() == g.fn.Name() {
+				isig = iface.Method(i).Type().(*types.Signature)
+			}
+		}
+		if isig == nil || isig.Params().Len() != len(g.fn.Params)-1 {
+			continue
+		}
+		pn := paramNames(ict, isig)
+		for ri, r := range g.rets {
+			env := map[string]Val{"recv": g.val(g.fn.Params[0])}
+			for i, n := range pn {
+				env[n] = g.val(g.fn.Params[i+1])
+			}
+			oldEnv := map[string]Val{}
+			for n, v := range env {
+				oldEnv[n] = v
+			}
+			var rs []Val
+			for i := range r.results {
+				rv := r.results[i]
+				rv.Go = isig.Results().At(i).Type()
+				rs = append(rs, rv)
+			}
+			resultEnv(env, isig, rs)
+			g.st = r.st
+			for i, e := range ict.Ensures {
+				ctx := &EvalCtx{g: g, env: env, st: r.st, oldSt: g.entrySt, oldEnv: oldEnv, guard: r.guard}
+				label := k + ":" + clauseLabel(e, i)
+				if len(g.rets) > 1 {
+					label = fmt.Sprintf("%s@ret%d", label, ri+1)
+				}
+				g.obligeClause("subtype", label, r.guard, e, ctx, r.pos)
+			}
+		}
+	}
 }
